@@ -48,7 +48,7 @@ def isTruncate : Op → Bool
 inductive Rec
   | new (f : Nat) | app (f : Nat) (b : Bytes) | ren (f g : Nat) | trunc (f : Nat)
   | up | disc (f : Nat) | scan
-  | inp (f off : Nat) (pass : Bool) | out (f off seq id : Nat) | ack (f off id : Nat) | com (f off : Nat)
+  | inp (f off : Nat) (pass : Bool) | out (f off seq id : Nat) | ack (f off id : Nat) | com (f off id : Nat)
   | eof (f size : Nat) | idle | stuck | crash | saved (f : Nat) (o : Offsets) | died
   | bad (tok : String)
 
